@@ -172,46 +172,8 @@ def run(ck: Checker):
                 bad.append(f'{g.qualname} L{n.lineno}')
     ck.ob('C13-3', bp.method('__reduce__'), (bp.method('__reduce__').node.lineno, 'rebuild kwds'), not bad, 'no __reduce__ asks the rebuild side for incref=False' if not bad else f'`incref` is put into the rebuild kwds at {bad}')
     # ------------------------------------------------------------------ C13-4
+    check_create_bookkeeping(ck, 'C13-4')
     srv = mod.cls('Server')
-    f = srv.method('create')
-    cfg = build_cfg(f, ck.repo, None)
-    ck.analysed_func(f, cfg)
-    init = {n.id for n in cfg.nodes if isinstance(n.ast, ast.Assign) and isinstance(n.ast.targets[0], ast.Subscript) and dotted(n.ast.targets[0].value) == 'self.id_to_refcount'}
-    # `self.id_to_refcount.setdefault(ident, 0)`: initialises only if absent, by construction
-    setdef = {}
-    for n in cfg.nodes:
-        a = header_expr(n)
-        for c in (calls_in(a) if a is not None else []):
-            r, me = method_of(c)
-            if me == 'setdefault' and r is not None and dotted(r) == 'self.id_to_refcount' and len(c.args) == 2:
-                setdef[n.id] = c.args[1]
-    init |= set(setdef)
-    mk = [n for n in cfg.nodes if header_expr(n) is not None and any(dotted(c.func) == 'self._make_proxy' for c in calls_in(header_expr(n)))]
-    ck.need(mk, f'{f.key}: proxy construction not found')
-    if not init:
-        ck.ob('C13-4', f, mk[0].ast, False, 'create() never initialises the reference-count entry: the first incref of the new proxy raises KeyError (or counts from a stale entry)')
-        init = {mk[0].id}
-    # the init is under `if ident not in self.id_to_refcount` : passing that test counts
-    tests = {n.id for n in cfg.nodes if n.kind == 'test' and 'id_to_refcount' in norm_text(n.ast)}
-    p = path_avoiding(cfg, [cfg.entry], {mk[0].id}, avoid=init | tests)
-    store_obj = {n.id for n in cfg.nodes if isinstance(n.ast, ast.Assign) and isinstance(n.ast.targets[0], ast.Subscript) and dotted(n.ast.targets[0].value) == 'self.id_to_obj'}
-    p2 = path_avoiding(cfg, [cfg.entry], {mk[0].id}, avoid=store_obj)
-    zero = all(isinstance(v, ast.Constant) and v.value == 0 and not isinstance(v.value, bool) for v in (setdef[i] if i in setdef else getattr(cfg.nodes[i].ast, 'value', None) for i in init))
-    ok = p is None and p2 is None and zero
-    # ...and only if absent: the same server-side object can be wrapped again (a hosted method returning
-    # managed(x) twice) while earlier proxies still hold references; resetting the count would forget them
-    absent = {}
-    for n in cfg.nodes:
-        if n.kind == 'test' and isinstance(n.ast, ast.Compare) and len(n.ast.ops) == 1 and isinstance(n.ast.ops[0], (ast.NotIn, ast.In)) and dotted(n.ast.comparators[0]) == 'self.id_to_refcount':
-            absent[n.id] = 'T' if isinstance(n.ast.ops[0], ast.NotIn) else 'F'
-    for i in init:
-        if i == mk[0].id or i in setdef:
-            continue
-        pth = path_avoiding(cfg, [cfg.entry], {i}, edge_ok=lambda e: not (e.src in absent and e.kind == absent[e.src]))
-        if pth is not None:
-            ok = False
-            ck.ob('C13-4', f, cfg.nodes[i].ast, False, 'the reference count is (re)set to 0 even when an entry already exists: wrapping the same hosted object again forgets the references held by earlier proxies — dropping one proxy then destroys the object while another still refers to it')
-    ck.ob('C13-4', f, mk[0].ast, ok, 'object and count entry (0) exist before the proxy constructor takes the first reference' if ok else 'the proxy can be constructed before the object / its count entry is registered (or the entry does not start at 0)')
     f = mod.func('managed')
     rets = [n for n in walk_shallow_func(f.node) if isinstance(n, ast.Return)]
     creates = [n for n in walk_shallow_func(f.node) if isinstance(n, ast.Call) and dotted(n.func) == 'server.create']
@@ -258,3 +220,50 @@ def run(ck: Checker):
             elif calls.index('close') > calls.index('unlink'):
                 pass
     ck.ob('C13-5', init, (init.node.lineno, 'MemoryBlock finaliser'), not probs, '; '.join(probs) if probs else 'a finaliser over the created SharedMemory closes and unlinks it when the hosted block is destroyed')
+
+
+def check_create_bookkeeping(ck: Checker, rid: str):
+    """Server.create: object and count entry exist before the proxy is built; the entry starts at 0 and is initialised
+    only if absent (the same hosted object can be wrapped again while earlier proxies still refer to it)."""
+    mod = ck.repo.module(SERVERPROC)
+    # ------------------------------------------------------------------ C13-4
+    srv = mod.cls('Server')
+    f = srv.method('create')
+    cfg = build_cfg(f, ck.repo, None)
+    ck.analysed_func(f, cfg)
+    init = {n.id for n in cfg.nodes if isinstance(n.ast, ast.Assign) and isinstance(n.ast.targets[0], ast.Subscript) and dotted(n.ast.targets[0].value) == 'self.id_to_refcount'}
+    # `self.id_to_refcount.setdefault(ident, 0)`: initialises only if absent, by construction
+    setdef = {}
+    for n in cfg.nodes:
+        a = header_expr(n)
+        for c in (calls_in(a) if a is not None else []):
+            r, me = method_of(c)
+            if me == 'setdefault' and r is not None and dotted(r) == 'self.id_to_refcount' and len(c.args) == 2:
+                setdef[n.id] = c.args[1]
+    init |= set(setdef)
+    mk = [n for n in cfg.nodes if header_expr(n) is not None and any(dotted(c.func) == 'self._make_proxy' for c in calls_in(header_expr(n)))]
+    ck.need(mk, f'{f.key}: proxy construction not found')
+    if not init:
+        ck.ob(rid, f, mk[0].ast, False, 'create() never initialises the reference-count entry: the first incref of the new proxy raises KeyError (or counts from a stale entry)')
+        init = {mk[0].id}
+    # the init is under `if ident not in self.id_to_refcount` : passing that test counts
+    tests = {n.id for n in cfg.nodes if n.kind == 'test' and 'id_to_refcount' in norm_text(n.ast)}
+    p = path_avoiding(cfg, [cfg.entry], {mk[0].id}, avoid=init | tests)
+    store_obj = {n.id for n in cfg.nodes if isinstance(n.ast, ast.Assign) and isinstance(n.ast.targets[0], ast.Subscript) and dotted(n.ast.targets[0].value) == 'self.id_to_obj'}
+    p2 = path_avoiding(cfg, [cfg.entry], {mk[0].id}, avoid=store_obj)
+    zero = all(isinstance(v, ast.Constant) and v.value == 0 and not isinstance(v.value, bool) for v in (setdef[i] if i in setdef else getattr(cfg.nodes[i].ast, 'value', None) for i in init))
+    ok = p is None and p2 is None and zero
+    # ...and only if absent: the same server-side object can be wrapped again (a hosted method returning
+    # managed(x) twice) while earlier proxies still hold references; resetting the count would forget them
+    absent = {}
+    for n in cfg.nodes:
+        if n.kind == 'test' and isinstance(n.ast, ast.Compare) and len(n.ast.ops) == 1 and isinstance(n.ast.ops[0], (ast.NotIn, ast.In)) and dotted(n.ast.comparators[0]) == 'self.id_to_refcount':
+            absent[n.id] = 'T' if isinstance(n.ast.ops[0], ast.NotIn) else 'F'
+    for i in init:
+        if i == mk[0].id or i in setdef:
+            continue
+        pth = path_avoiding(cfg, [cfg.entry], {i}, edge_ok=lambda e: not (e.src in absent and e.kind == absent[e.src]))
+        if pth is not None:
+            ok = False
+            ck.ob(rid, f, cfg.nodes[i].ast, False, 'the reference count is (re)set to 0 even when an entry already exists: wrapping the same hosted object again forgets the references held by earlier proxies — dropping one proxy then destroys the object while another still refers to it')
+    ck.ob(rid, f, mk[0].ast, ok, 'object and count entry (0) exist before the proxy constructor takes the first reference' if ok else 'the proxy can be constructed before the object / its count entry is registered (or the entry does not start at 0)')
